@@ -41,6 +41,7 @@ type Config struct {
 	Tier int
 	FoldRegex bool // regular-expression memberships and length bounds of a string go to the solver as one membership (Solver.DefineMemb)
 	InstrPkg string // package whose synchronisation operations are scheduling points of the native replay
+	InstrMore map[string]bool // further packages instrumented the same way (spec "instr_pkgs")
 	witnessed *sync.Map
 }
 
